@@ -84,3 +84,34 @@ CHECKS["C01"].update(
                "with an independent oracle; this is exhaustive within the universes, not a sample, and is the right level for a pure function of the position.",
     level_note="Trusted: the independent oracle (cross-checked against published perft counts in the same run); positions outside the universes are not covered.",
 )
+
+# ------------------------------------------------------------------------------------------ C15
+def c15_parts(tier, seed):
+    q = tier == "quick"
+    parts = [
+        P("U-PERFT", "c15_revmovegen", "seq", ["--part", "perft", "--depth", 2 if q else 3], require=["ep_captures", "capture_promotions", "rights_losing_moves"]),
+        P("U-3", "c15_revmovegen", "fast", ["--part", "u3", "--wk", 2 if q else 1, "--types", 0x64 if q else 0x7c], require=["states"]),
+        P("U-CASTLE", "c15_revmovegen", "seq", ["--part", "ucastle", "--blockers", 0], require=["rights_losing_moves"]),
+        P("U-EP", "c15_revmovegen", "fast", ["--part", "uep"] + (["--sliders", 3, "--files", 17, "--sides", 2] if q else ["--sliders", 7]), require=["ep_captures"]),
+    ]
+    if not q:
+        parts.append(P("U-4", "c15_revmovegen", "fast", ["--part", "u4", "--from", 0, "--count", 80], require=["states"], deadline_frac=0.9))
+    return parts
+
+CHECKS["C15"] = dict(
+    parts=c15_parts,
+    rule="states = positions P (FEN-normalised) of the universes, evaluations = (P,m) pairs checked for completeness, transitions = un-moves checked for consistency "
+         "(every un-move of every distinct successor Q, both values of includeAllEpSquares); P is non-trivial when one of its moves is a capture, promotion, castling, "
+         "changes castling rights, or P or Q carries an en-passant right",
+    alphabet="positions: U-PERFT(seeds,d), U-3, U-CASTLE, U-EP, U-4 slice; operations: makeMove + fixupEPSquare, RevMoveGen::genMoves(Q, false/true), unMakeMove",
+    oracle="independent rules oracle: listed un-move restores a position where the move is legal (oracle generator) and leads back to Q (oracle apply and texel makeMove); "
+           "(m, undo info of P) is contained in the list of Q",
+    bound=dict(quick="U-PERFT depth 2, U-3 (wK triangle; X in Q,N,P), U-CASTLE, U-EP slice (files a,e; right neighbour; Q,R)",
+               thorough="U-PERFT depth 3, U-3 (wK a-d), U-CASTLE, U-EP all, all 80 4-men classes"),
+    assumptions=["positions are FEN-normalised (ep square only if the capture is legal), as RevMoveGen's callers hold them",
+                 "ep-carrying predecessors are only promised with includeAllEpSquares=true",
+                 "restored predecessors need not be valid positions (header: 'some but not all' invalid predecessors are excluded); they are counted, not flagged"],
+    technique="bounded-exhaustive enumeration of (position, move) pairs over complete small universes, forward/backward conformance against an independent oracle",
+    level_text="Every (P,m) pair of the universes is checked for completeness and every un-move of every successor for consistency; exhaustive within the universes.",
+    level_note="Trusted: the independent oracle; positions with many men only through the seed trees.",
+)
